@@ -24,8 +24,9 @@ Fixpoint checkTrailingWhitespace (raws : list str) : res (list str) :=
 
 (* ---- func (ck MkLineChecker) checkDirectiveIndentation(expectedDepth int) ----
    raw0 = RawText(0), indent = mkline.Indent() as parsed (the blanks after the dot) *)
-Definition checkDirectiveIndentation (raw0 indent : str) (expectedDepth : Z) : res str :=
-  if expectedDepth <? 0 then Panic                (* strings.Repeat: negative count *)
+Definition checkDirectiveIndentation (stmtsNil : bool) (raw0 indent : str) (expectedDepth : Z) : res str :=
+  if stmtsNil then Ok raw0                        (* if ck.MkLines.stmts == nil { return } *)
+  else if expectedDepth <? 0 then Panic                (* strings.Repeat: negative count *)
   else
     let expected := spaces expectedDepth in
     if str_eqb indent expected then Ok raw0
